@@ -126,6 +126,8 @@ structure LQ (s : State) : Prop where
   bw : s.spc = SPc.blocked → s.qWaiting = true
   /-- the solver goes to sleep only with an empty queue … -/
   wq : s.spc = SPc.waitQ → s.queue = []
+  /-- … and leaves the first `run_queued_commands` only with an empty queue -/
+  rq : s.spc = SPc.relQ1 → s.queue = []
   /-- … and whoever appends to the queue of a sleeping solver is about to notify it -/
   nq : s.spc = SPc.blocked → (∀ u, s.qOwner = some u → isQNta (s.th u).pc = false) → s.queue = []
 
@@ -144,7 +146,7 @@ theorem lq_stepIface {s s' : State} {t : Tid} {evs : List Ev} (h : LQ s)
   | (cases hs; done)
   | (simp only [Bool.false_eq_true, if_false, Option.some.injEq, Prod.mk.injEq] at hs
      obtain ⟨rfl, -⟩ := hs
-     obtain ⟨a1, a2, a3, a4, a5, a6⟩ := h
+     obtain ⟨a1, a2, a3, a4, a5, a7, a6⟩ := h
      constructor <;> (try simp only [setPc]) <;> grind [ownsQ, sOwnsQ, isQNta, QW])
 
 set_option maxHeartbeats 4000000 in
@@ -159,7 +161,7 @@ theorem lq_stepSolver {s s' : State} {evs : List Ev} (h : LQ s)
   | (cases hs; done)
   | (simp only [Option.some.injEq, Prod.mk.injEq] at hs
      obtain ⟨rfl, -⟩ := hs
-     obtain ⟨a1, a2, a3, a4, a5, a6⟩ := h
+     obtain ⟨a1, a2, a3, a4, a5, a7, a6⟩ := h
      constructor <;> (repeat' split) <;> grind [ownsQ, sOwnsQ, isQNta, QW])
 
 /-! ### `plock`, backwards -/
